@@ -131,6 +131,7 @@ fixed = [
     ("C05", "82499b9", "PynencError subclasses without attributes lost Exception.args on serialisation (C05/R4)"),
     ("C18", "f31d3bd", "WorkflowContext.deterministic cached the executor of the first invocation on the per-process Task (C18/R1)"),
     ("C03", "06e9472", "get_additional_invocations_to_run dropped every popped message whose id was listed in blocking_invocation_ids, also after that invocation had been handed back within the same poll (thread start failure -> rerouted): REROUTED, not queued, lost (C03/R3 exit::get_additional_invocations_to_run::Q-::return, found after the engine required listed ids to be HELD; findings/repro/r16_start_failure_drops_rerouted.py)"),
+    ("C16", "d96871a", "MemBlockingControl.get_blocking_invocations(0) returned every ready invocation (the == 0 test came after the decrement), SQLiteBlockingControl none (LIMIT 0): a runner without a free slot claimed blocking invocations on the in-memory backend only (C16/R3 blocking-limit::zero-means-none-on-both-backends; observed by a seeding agent, findings/repro/r17_blocking_limit_zero.py)"),
     ("C12", "02fb446", "calculate_time_slot computed a window's end as start + slot - margin: with margin 0 the rounded end could exceed the next window's rounded start by one ulp, two runners authorised at one instant, e.g. N=7, 6 min (C12/R6; findings/repro/r15_slot_rounding.py)"),
 ]
 out = {
